@@ -5,6 +5,12 @@ import os
 from lib import vcheck
 
 
+def describe(ev):
+    # the events of a sequence of runs on one profile carry their position; a single run keeps the plain signature
+    where = "run%d:" % ev["step"] if ev.get("of", 1) > 1 else ""
+    return "symbolize:" + where + ("force" if ev["force"] else "noforce")
+
+
 def run(ctx, replay):
     binary = ctx.build("c12")
     if replay:
@@ -18,16 +24,22 @@ def run(ctx, replay):
         trace = os.path.join(ctx.scratch, "trace.ndjson")
         ctx.harness(binary, cases=path, trace=trace, n=0)
         res = ctx.tlc("TraceSymbolize", "TraceSymbolize.cfg", workers=1, files={"trace.ndjson": trace}, timeout=600)
-        vcheck.trace_verdict(ctx, res, trace, trace + ".in", check="trace-symbolize", describe=lambda ev: "symbolize:" + ev["mode"])
+        vcheck.trace_verdict(ctx, res, trace, trace + ".in", check="trace-symbolize", describe=describe)
         return ctx.finish("model_checking")
     cases = os.path.join(ctx.scratch, "cases.ndjson")
     ctx.tlc("Symbolize", "MCSymbolize.cfg", consts={"Tier": ctx.tier, "Emit": True}, emit_to=cases, timeout=3000, name="Symbolize")
     trace = os.path.join(ctx.scratch, "trace.ndjson")
     ctx.harness(binary, cases=cases, trace=trace, n=0)
+    # the events of one sequence stay together and in order: TraceSymbolize.tla carries the flags seen so far from run to run
     vcheck.sharded_trace(ctx, "TraceSymbolize", "TraceSymbolize.cfg", trace, trace + ".in", check="trace-symbolize",
-                         describe=lambda ev: "symbolize:" + ("force" if ev["force"] else "noforce"))
+                         describe=describe, group_start=lambda ev: ev["step"] == 1)
+    seqs = sum(s.get("counters", {}).get("sequences", 0) for s in ctx.summaries)
+    if seqs == 0:
+        raise vcheck.Infra("no sequence of runs was replayed (Symbolize.tla emitted none)")
     return ctx.finish(
         "model_checking",
         assumptions=["'already carries symbols' = the mapping's has-functions flag; force = the mode contains force or an explicit demangle=full|none|templates",
                      "plug-in behaviours are drawn from answer classes (one scripted representative each); real binutils/addr2line output parsing is C13's neighbourhood",
-                     "existing functions keep their position and id; new ones are appended"])
+                     "existing functions keep their position and id; new ones are appended",
+                     "sequences of runs: 3 runs per sequence over a fixed set of run scripts (8 quick, 12 thorough) on 4 (thorough: all) catalogue profiles; the profile object is handed from run to run as it is (written and parsed only on the side)",
+                     "'identical to an existing function' = one frame repeating name = system name, file and start line of the first such function in the table at the start of the run"])
